@@ -170,10 +170,40 @@ fn pedersen_case(h: String, g: Vec<String>) -> Box<dyn Case> {
 
 /// Fresh cross-verification in both directions
 fn cross_case(cfg: Cfg, seeded: bool) -> Box<dyn Case> {
-    case(format!("cross/{}/seeded={}", cfg.key(), seeded), move |_v| {
+    cross_case_variant(cfg, seeded, "default")
+}
+
+/// witness variants: "identity" (value 0 and all-zero blinding factors at the last position: the commitment is the identity),
+/// "top" (largest value everywhere, promise equal to it at the last position, half the range at the first),
+/// "leading-zero-blinding" (blinding component 0 is zero at every position)
+fn cross_case_variant(cfg: Cfg, seeded: bool, variant: &'static str) -> Box<dyn Case> {
+    case(format!("cross/{}/seeded={}{}", cfg.key(), seeded, if variant == "default" { String::new() } else { format!("/witness={}", variant) }), move |_v| {
         let mut res = CaseResult::new("compatible");
         let mut wit = Wit::default_for(&cfg);
         wit.promises[cfg.m - 1] = Some(wit.values[cfg.m - 1] / 2);
+        match variant {
+            "identity" => {
+                wit.values[cfg.m - 1] = 0;
+                wit.promises[cfg.m - 1] = if cfg.m % 2 == 0 { Some(0) } else { None };
+                for k in 0..cfg.d {
+                    wit.blindings[cfg.m - 1][k] = Scalar::ZERO;
+                }
+            },
+            "top" => {
+                for j in 0..cfg.m {
+                    wit.values[j] = cfg.max_value();
+                    wit.promises[j] = None;
+                }
+                wit.promises[cfg.m - 1] = Some(cfg.max_value());
+                wit.promises[0] = Some(cfg.max_value() / 2 + 1);
+            },
+            "leading-zero-blinding" => {
+                for j in 0..cfg.m {
+                    wit.blindings[j][0] = Scalar::ZERO;
+                }
+            },
+            _ => {},
+        }
         if seeded {
             wit.seed = Some(seed_scalar(31));
         }
@@ -246,11 +276,13 @@ fn cross_case(cfg: Cfg, seeded: bool) -> Box<dyn Case> {
 }
 
 pub fn run(rep: &mut Report) {
-    rep.rule = "(1) /verif/vectors/v040.json recorded from the pinned 0.4.0 tree with pristine merlin: 210 proofs (quick lattice x seeded / \
-                unseeded x two contexts, with promises) must still decode, verify and yield the recorded masks; commitments recomputed from \
+    rep.rule = "(1) /verif/vectors/v040.json recorded from the pinned 0.4.0 tree with pristine merlin: 241 proofs (quick lattice x seeded / \
+                unseeded x two contexts, with promises; 31 corner vectors: identity commitments, upper-half values with promises in the upper half, \
+                zero blinding factors in leading positions, seeds 0 / 1 / -1, in-between bit lengths / degrees / aggregation sizes) must still decode, verify and yield the recorded masks; commitments recomputed from \
                 the recorded openings must match; SHA3-256 digests of all 42 (bits, capacity) generator sets and the 6 blinding generators \
                 must match; the reference model must accept every recorded proof (this arbitrates R); (2) fresh cross-verification on the \
-                lattice in both directions: library prover -> reference verifier / recoverer, reference prover -> library verifier / recoverer"
+                lattice in both directions: library prover -> reference verifier / recoverer, reference prover -> library verifier / recoverer, \
+                for the default witness and the variants {identity commitment, top of the range with promise == value, zero leading blinding factor}"
         .into();
     rep.assume("vectors were recorded once by /verif/vecgen from commit 6415632 (pinned snapshot) and are committed; they are data, not re-derived at run time");
     let text = match std::fs::read_to_string("/verif/vectors/v040.json") {
@@ -279,6 +311,14 @@ pub fn run(rep: &mut Report) {
         cases.push(cross_case(cfg, false));
         if cfg.m == 1 {
             cases.push(cross_case(cfg, true));
+        }
+        if rep.tier.thorough() || cfg.big_n() <= 128 {
+            for variant in ["identity", "top", "leading-zero-blinding"] {
+                if variant == "leading-zero-blinding" && cfg.d < 2 {
+                    continue;
+                }
+                cases.push(cross_case_variant(cfg, cfg.m == 1, variant));
+            }
         }
     }
     rep.explore("C19", cases);
